@@ -235,6 +235,17 @@ func (y *c31Sys) apply(t c31Fataler, op c31Op, hist func() string) bool {
 		if c31u(lo.ExecutionGas).Cmp(mlo.GasLeft) != 0 || c31u(lo.StateGas).Cmp(mlo.Reservoir) != 0 {
 			t.Fatalf("exit(%v) of %v hands back <%d,%d>, reference <%v,%v>, after %s", kind, child, lo.ExecutionGas, lo.StateGas, mlo.GasLeft, mlo.Reservoir, hist())
 		}
+		// the leftover form itself conserves the frame's initial budget in both dimensions
+		{
+			e0, s0 := c31u(childInit.ExecutionGas), c31u(childInit.StateGas)
+			ex := new(big.Int).Add(c31u(lo.ExecutionGas), c31u(lo.UsedExecutionGas))
+			ex.Add(ex, c31u(lo.Spilled))
+			sx := new(big.Int).Add(c31u(lo.StateGas), big.NewInt(lo.UsedStateGas))
+			sx.Sub(sx, c31u(lo.Spilled))
+			if ex.Cmp(e0) != 0 || sx.Cmp(s0) != 0 {
+				t.Fatalf("exit(%v) of %v (started <%d,%d>) yields leftover %v: E+UsedE+Spilled=%v, S+UsedS-Spilled=%v, after %s", kind, child, childInit.ExecutionGas, childInit.StateGas, lo, ex, sx, hist())
+			}
+		}
 		if kind != refgas.ExitOK {
 			if lo.StateGas != childInit.StateGas {
 				t.Fatalf("exit(%v) of %v hands back reservoir %d, the frame started with %d, after %s", kind, child, lo.StateGas, childInit.StateGas, hist())
